@@ -123,4 +123,36 @@ def redirectsOn (c : Config) (s : Server) (d : Name) : Bool :=
 def servedPort (c : Config) (d : Name) (p : Nat) : Bool :=
   c.servers.any fun s => redirectsOn c s d && s.listen.any fun a => decide (a.sp = p)
 
+/-! ### where the result depends on the iteration order of the servers map -/
+
+/-- the server reaches the redirect part of the main loop -/
+def redirOn (c : Config) (s : Server) : Bool := engaged c s && !s.disableRedir
+
+/-- the `redirDomains` keys a server contributes: its names, or the catch-all key 0 -/
+def keysOf (s : Server) : List Name := if (domainSet s).isEmpty then [0] else domainSet s
+
+def offHTTPS (c : Config) (s : Server) : Bool := s.listen.any fun a => decide (a.sp ≠ httpsPort c)
+
+/-- two redirect-enabled servers contribute key `d`, and one that has names of its own
+    listens on a port other than the HTTPS port: whether that listener's address is kept for
+    `d` ("prefer the HTTPS port", else first come first served) depends on which server the
+    `range app.Servers` loop visits first (DESIGN F16) -/
+def ambName (c : Config) (d : Name) : Bool :=
+  (indexed c.servers 0).any fun is =>
+    redirOn c is.2 && (keysOf is.2).contains d && !(domainSet is.2).isEmpty && offHTTPS c is.2 &&
+    (indexed c.servers 0).any fun js => decide (js.1 ≠ is.1) && redirOn c js.2 && (keysOf js.2).contains d
+
+def coversPort (a : Addr) (p : Nat) : Bool := decide (a.sp ≤ p) && decide (p ≤ a.ep)
+
+/-- two servers listen on the HTTP port of the same network: `hasListenerAddress` ignores the
+    host on linux, so which of them receives a redirect block depends on the order of the
+    inner `range app.Servers` -/
+def ambRecv (c : Config) : Bool :=
+  (indexed c.servers 0).any fun is => (indexed c.servers 0).any fun js =>
+    decide (js.1 ≠ is.1) && is.2.listen.any fun a => js.2.listen.any fun b =>
+      decide (a.net = b.net) && coversPort a (httpPort c) && coversPort b (httpPort c)
+
+/-- the decidable exclusion of `deterministic_partial` (and the mask of the correspondence line) -/
+def ambiguous (c : Config) : Bool := ambRecv c || (c.servers.flatMap keysOf).any (ambName c)
+
 end CaddyModel.C11
